@@ -642,7 +642,8 @@ PROPS = {
              "`GET http://127.0.0.1/` or an authority the socket-address parser rejects takes), through the real resolver call; "
              "canary listeners on this machine's non-global addresses that no spelling, literal or as a name, may reach; "
              "a case is non-trivial/distinct by its query line"
-             " How a refusal is reported (suite c10real, shared with C10): CONNECT, and plain-HTTP GET / POST whose authority spells the port out or leaves it out, to 19 literals and 9 scripted names x both policies x IPv6 on/off through the real direct forwarder: status, X-Warning code and X-Adguard-Vpn-Error (which must name the request's authority) against the C03 decision carried through the generated tables",
+             " How a refusal is reported (suite c10real, shared with C10): CONNECT, and plain-HTTP GET / POST whose authority spells the port out or leaves it out, to 19 literals and 9 scripted names x both policies x IPv6 on/off through the real direct forwarder: status, X-Warning code and X-Adguard-Vpn-Error (which must name the request's authority) against the C03 decision carried through the generated tables"
+             " Canaries also sit second in the answer of names whose first address is global but unreachable ([ff0e::1234], 8.8.8.8, 2606:4700:4700::1111): the failed attempt is not followed by an unchecked one",
         explanation="theorems v4_exact, v6_unicast_exact, v6_mapped_exact, connect_only_global, global_*_never_refused about "
                     "TT/Model/Ip.lean; model tied to lib/src/net_utils.rs + tcp_forwarder.rs by exhaustive/differential runs",
         trusted=["std::net::Ipv4Addr/Ipv6Addr predicates as transcribed (tied by the exhaustive sweep)",
@@ -685,7 +686,8 @@ PROPS = {
              " Live over HTTP/3 (suite c11h3, where raw sockets are permitted): two clients CONNECT _icmp through the real QUIC listener "
              "and ping 127.0.0.1 with their own identifiers (6, thorough 20, requests each, records split across writes, 4 data sizes): "
              "each must get exactly one 22-byte 7.4 record per request (source 127.0.0.1, type 0, code 0, its id and sequence number) "
-             "and none of the other client's",
+             "and none of the other client's"
+             " One request in six of the live histories has TTL 0 (the kernel refuses to send it): the client is told, and a reply or error that would match it - at once, or after the timeout - is nobody's. The on-the-wire block also requires the kernel's reply to each request to reach the client (type 0 / 129 from the pinged address, identifier and sequence number of the request)",
         explanation="theorems checksum_verifies (all payloads <= 65535 bytes), request_decode_segmentation, request_fields_faithful, request_leaves_as_requested, "
                     "*_no_panic, v4_error_designates, reply_format, waiter-table invariants",
         trusted=["ICMPv6 checksum is computed by the kernel for raw ICMPv6 sockets (not modelled)",
@@ -824,7 +826,8 @@ PROPS = {
              "listen on the address asked for, present the generated certificate for the host name and answer health checks with six "
              "Proxy-Authorization tokens (right, longer password, empty password, other case of the user, trimmed password, none) as the "
              "registry model does"
-             " Certificate files that cannot be loaded as what they claim to be - a CERTIFICATE block that is not base64 (alone with a good key, after a good certificate, before one), a key and no certificate, an empty file - in every host class, built and through a hosts file at start-up: all refused",
+             " Certificate files that cannot be loaded as what they claim to be - a CERTIFICATE block that is not base64 (alone with a good key, after a good certificate, before one), a key and no certificate, an empty file - in every host class, built and through a hosts file at start-up: all refused"
+             " ... and a file with a certificate and no key named as certificate and key file (a \"combined\" file without its key)",
         explanation="theorems decode_encode_basic, literal_verbatim, basic_plain_verbatim, load_ok_iff, empty_rejected, base64_injective, "
                     "accepted_iff_listed, accepted_token_identifies_pair, refuses_to_start_iff about TT/Model/Creds.lean",
         trusted=["toml_edit for everything outside single-line basic/literal strings (multi-line strings are outside the model)",
@@ -936,8 +939,7 @@ PROPS = {
         retry_on_failure=True,
         suites=["c09", "c09live", "c09origin"],
         # the codec suites of the other properties, for their panics and hangs only (wrong answers are those properties' business)
-        borrowed_suites={"c06": ["panic", "spin_or_hang", "hang"], "c08": ["panic", "spin_or_hang", "hang"], "c11": ["panic", "spin_or_hang", "hang"],
-                         "c12": ["panic", "spin_or_hang", "hang", "loop_stalled"], "c15": ["panic", "spin_or_hang", "hang"]},
+        borrowed_suites={k: ["panic", "spin_or_hang", "hang", "no_progress", "loop_stalled"] for k in ["c06", "c08", "c11", "c12", "c15"]},
         judge=judge_c09,
         level="proof",
         exhaustive=True,
@@ -965,7 +967,8 @@ PROPS = {
              "lines that never end, non-HTTP bytes - x 4 segmentations x 4 client acceptance patterns x HTTP/1.1, 2, 3 clients through the "
              "real into_forwarded source / sink and the real DuplexPipe under virtual time, each run watched by a 20 s wall-clock watchdog "
              "(a stream whose input is re-offered forever keeps the idle timeout from firing): no panic, no busy loop, never more body "
-             "bytes delivered than the origin produced; the over-long and bodiless classes are also answered by the C17 model",
+             "bytes delivered than the origin produced; the over-long and bodiless classes are also answered by the C17 model"
+             " Whole ICMP request frames delivered in pieces (cut after 1, 10, 22 bytes) with every tail behind them and another frame after that. Every parser case is announced to the progress watchdog (40 s): a busy loop ends the suite with that case named",
         explanation="theorems udp_stream_no_panic, udp_step_safe, icmp_request_decoder_safe, ip_header_skipping_safe, icmp_packets_safe, "
                     "client_hello_prebuffer_bounded, h1_head_bounded_and_progress, socks_udp_datagram_safe, socks_truncated_reply_is_error, "
                     "rules_malformed_safe, forwarded_sink_never_spins / _consumes / _failure_is_final (every write of the plain-HTTP response "
@@ -1041,7 +1044,8 @@ PROPS = {
              "6.4 records labelled (destination, source) of their flow, unaltered, never twice, all of them when the client's window is "
              "large (with a 6000-byte window the dropping sink may omit whole datagrams); outbound_udp_sockets follows the flows and "
              "returns to zero; a dead-port flow does not stop the others"
-             " One reply in five is 0, 1 or 2 bytes long (an empty datagram is a datagram: relayed, and the flow stays)",
+             " One reply in five is 0, 1 or 2 bytes long (an empty datagram is a datagram: relayed, and the flow stays)"
+             " One live server is on [::1] and every second client source label is IPv6 (direct forwarder; the SOCKS5 relay of the harness is IPv4-only)",
         explanation="theorems sent_to_own_destination, datagram_step_output, reply_labelled_with_own_flow, reply_delivered_on_live_flow, "
                     "tables_coupled, sockets_from_history, idle_flow_released, tick_expires_all_idle, fresh_flow_survives_advance, "
                     "tick_period, dns_flow_released_when_answered, dns_flow_kept_while_pending, dns_query_counts, "
